@@ -64,6 +64,7 @@ REGIONS = {
     'renege_dyn': dict(renege=1.0, dyn=1.0, multiclass=True),     # reneging x class change while waiting (C17)
     'ps': dict(ps=1.0, noblock=True),
     'deadlock': dict(block=1.0, deadlock=True),
+    'preempt_deep': dict(prio=1.0, preempt=1.0, noblock=True, deep=True),
     'jsq_preempt': dict(routers=1.0, jsq=True, prio=1.0, preempt=1.0, noblock=True, multiclass=True),
     'all': dict(prio=0.4, preempt=0.3, sched=0.3, schedpre=0.3, slotted=0.15, renege=0.3, dyn=0.2, routers=0.3,
                 block=0.4),
@@ -78,6 +79,9 @@ def gen(region, seed, size='quick'):
     k = rng.choice([1, 1, 2, 2, 3])
     if f.get('multiclass') and k == 1:
         k = 2
+    if f.get('deep'):
+        k = 3
+        n = rng.choice([1, 1, 2])
     if f.get('deadlock'):
         n = rng.choice([1, 2, 2, 3])
     cfg = {'n': n, 'k': k, 'region': region, 'gen_seed': seed, 'seed': rng.randrange(1 << 30)}
@@ -92,6 +96,9 @@ def gen(region, seed, size='quick'):
             if a is not None and sum(a) == 0:
                 a[0] = 2        # no Zeno stream
     cfg['svc'] = [[_vals(rng, zero=zero) for _ in range(n)] for _ in range(k)]
+    if f.get('deep'):
+        cfg['svc'] = [[_vals(rng, 1, 4, grid=[6, 8, 12, 16, 20]) for _ in range(n)] for _ in range(k)]
+        cfg['arr'] = [[_vals(rng, 1, 4, grid=[3, 4, 6, 8, 12]) for _ in range(n)] for _ in range(k)]
     # servers
     blockp = f.get('block', 0.35)
     noblock = f.get('noblock', False)
@@ -113,7 +120,9 @@ def gen(region, seed, size='quick'):
             servers.append({'kind': 'sched', 'c': [rng.choice([0, 1, 1, 2, 3]) for _ in range(m)], 'ends': ends,
                             'pre': pre, 'offset': rng.choice([0, 0, 0, 2, 6])})
         else:
-            if f.get('deadlock'):
+            if f.get('deep'):
+                servers.append(rng.choice([1, 1, 2]))
+            elif f.get('deadlock'):
                 servers.append(rng.choice([1, 1, 2, 3]))
             else:
                 servers.append(rng.choice([1, 1, 2, 3, 'inf'] + ([0] if rng.random() < 0.1 else [])))
@@ -173,9 +182,15 @@ def gen(region, seed, size='quick'):
         vals = sorted(set(pr))
         cfg['prio'] = [vals.index(p) for p in pr]
         cfg['prio_rev'] = rng.random() < 0.5
+        if f.get('deep'):
+            pr = [0, 1, 2]
+            rng.shuffle(pr)
+            cfg['prio'] = pr
         if P('preempt'):
             opts = ['resume', 'restart', 'resample'] + (['reroute'] if f.get('reroute') else [])
             cfg['preempt'] = [rng.choice(opts + [False]) for _ in range(n)]
+            if f.get('deep'):
+                cfg['preempt'] = [rng.choice(['restart', 'restart', 'resume', 'resample']) for _ in range(n)]
     cfg['disc'] = [rng.choice(['FIFO', 'FIFO', 'LIFO', 'SIRO']) for _ in range(n)] if rng.random() < 0.4 else None
     if rng.random() < 0.3:
         cfg['batch'] = [[([rng.choice([0, 1, 1, 2, 3]) for _ in range(rng.randint(1, 3))] if cfg['arr'][c][j] is not None else None)
